@@ -88,6 +88,19 @@ var (
 
 func stat(k string, n int) { statMu.Lock(); stats[k] += n; statMu.Unlock() }
 
+var filesSeen = map[uint64]bool{}
+
+// noteFile counts the distinct files whose crash points are enumerated.
+func noteFile(content string) {
+	statMu.Lock()
+	defer statMu.Unlock()
+	h := vkit.Hash64(content)
+	if !filesSeen[h] {
+		filesSeen[h] = true
+		stats["files_enumerated"]++
+	}
+}
+
 // ------------------------------------------------------------------ tracing
 
 type event struct {
@@ -537,7 +550,7 @@ func oracle(c Case) vkit.Outcome {
 	var pts []point
 	if c.Syscall == "" {
 		pts = fi.points
-		stat("files_enumerated", 1)
+		noteFile(c.Content)
 	} else {
 		for _, p := range fi.points {
 			if p.Name == c.Syscall && p.When == c.When {
@@ -637,7 +650,7 @@ func fixedCases() []Case {
 			cs = append(cs, f) // the oracle reports why
 			continue
 		}
-		stat("files_enumerated", 1)
+		noteFile(f.Content)
 		for _, p := range fi.points {
 			cs = append(cs, Case{Name: f.Name, Content: f.Content, Syscall: p.Name, When: p.When})
 		}
